@@ -66,9 +66,10 @@ func asciiLower(a string) string {
 }
 
 // INBOX is case-insensitive at the first level of hierarchy.
+// With the empty delimiter (flat namespace) the whole name is the first level.
 func canonFirst(d, n string) string {
 	first, rest := n, ""
-	if i := strings.Index(n, d); i >= 0 {
+	if i := strings.Index(n, d); d != "" && i >= 0 {
 		first, rest = n[:i], n[i:]
 	}
 	if asciiFoldEq(first, "INBOX") {
@@ -125,6 +126,9 @@ func (s *refState) remove(r *refRow) {
 // superiors of n, shortest first: every proper prefix that is followed by the delimiter.
 func superiors(d, n string) []string {
 	var out []string
+	if d == "" { // flat namespace: no hierarchy
+		return nil
+	}
 	for i := 0; i+len(d) <= len(n); i++ {
 		if n[i:i+len(d)] == d {
 			out = append(out, n[:i])
@@ -133,12 +137,20 @@ func superiors(d, n string) []string {
 	return out
 }
 
-func isSuperior(d, p, n string) bool { return strings.HasPrefix(n, p+d) }
+func isSuperior(d, p, n string) bool { return d != "" && strings.HasPrefix(n, p+d) }
+
+// delimByte is the delimiter as a byte for the character-wise matchers; the empty delimiter is a byte that occurs in no name
+func delimByte(d string) byte {
+	if d == "" {
+		return 0
+	}
+	return d[0]
+}
 
 // rules for a name that is about to exist
 func badNewName(d, n string) bool {
 	return strings.HasPrefix(asciiLower(n), asciiLower(recoveryName)) || n == "" ||
-		strings.HasPrefix(n, d) || strings.Contains(n, d+d)
+		(d != "" && (strings.HasPrefix(n, d) || strings.Contains(n, d+d)))
 }
 
 // the steps return true for OK, false for NO
@@ -334,7 +346,7 @@ type listed struct {
 }
 
 func refRoot(d, ref string) string {
-	if i := strings.Index(ref, d); i >= 0 {
+	if i := strings.Index(ref, d); d != "" && i >= 0 {
 		return ref[:i+len(d)]
 	}
 	return ""
@@ -394,7 +406,7 @@ func (s *refState) list(lsub bool, ref, pat string) []listed {
 		}
 	}
 	for c := range cands {
-		if !rfcMatch(s.D[0], p, c) {
+		if !rfcMatch(delimByte(s.D), p, c) {
 			continue
 		}
 		if o, ok := offered[c]; ok {
